@@ -8,6 +8,7 @@ from gen import mframe
 ID = "C11"
 LEVEL = "proof"
 LEAN_MODULES = ["OsmoVerif.Props.C11"]
+DRIVER_MODULES = ["Mframe"]
 LEAN_MODEL_MODULES = ["OsmoVerif.Model.Mframe", "OsmoVerif.Spec.Mframe", "OsmoVerif.Lemmas.Mframe",
                       "OsmoVerif.Gen.FwMframe", "OsmoVerif.Gen.TrxconMframe"]
 ASSUMPTIONS = [
